@@ -22,7 +22,7 @@ PID = "C03"
 
 
 def strip_stops(prog):
-    return [[a for a in body if not (a[0] == "cmd" and a[1][0] == "stop")] for body in prog]
+    return [[a for a in body if not ((a[0] == "cmd" and a[1][0] == "stop") or a[0] == "extstop")] for body in prog]
 
 
 def gen_case(rng: random.Random, i: int) -> dict:
@@ -31,12 +31,14 @@ def gen_case(rng: random.Random, i: int) -> dict:
     prog = S.gen_program(rng, clock, p_illegal=0.05, p_cancel=0.10)
     init = S.gen_repl(rng, clock)
     start, end = init[1], init[3]
-    with_stop = (i % 50 == 7)          # stop() from a handler costs 1 s wall each: few of them
-    if with_stop:
+    with_stop = (i % 50 == 7)          # stop() called by a handler costs 1 s wall each: few of them
+    ext_stop = (i % 5 == 3)            # stop() by the controlling thread while a handler runs: cheap
+    if with_stop or ext_stop:
         hs = [h for h in range(1, len(prog)) if prog[h]]
         if hs:
             h = rng.choice(hs)
-            prog[h].insert(rng.randint(0, len(prog[h])), ["cmd", ["stop"]])
+            prog[h].insert(rng.randint(0, len(prog[h])), ["cmd", ["stop"]] if with_stop else ["extstop"])
+        with_stop = True
     cmds = [init]
     t = start
     nseg = rng.randint(1, 6)
@@ -56,7 +58,7 @@ def gen_case(rng: random.Random, i: int) -> dict:
             if rng.random() < 0.04:
                 t = end + 2 * u               # beyond the end
             cmds.append(["runupto" if rng.random() < 0.5 else "runuptoincl", t])
-    n_final = 3 if with_stop else 1
+    n_final = 4 if with_stop else 1
     cmds += [["start"]] * n_final
     return {"clock": clock, "strategy": "pause", "prog": prog, "cmds": cmds}
 
@@ -181,6 +183,7 @@ def oracle(case, obs, ctx, idx):
             seg_exec.append(ent)
         elif ent[0] == "ntf" and ent[1] == "stopping":
             seg_stopped = True
+            facts["stop_start"] = True
         elif ent[0] == "cmd":
             c, r, rs, ps, clk, npend = ent[1], ent[2], ent[3], ent[4], ent[5], ent[6]
             if r not in ("ok", "refused"):
@@ -248,8 +251,8 @@ RULE = ("bounded-exhaustive: every sequence of <= 2 cuts (quick: + 400 sampled t
         "{step, start, run_up_to t, run_up_to_including t : t in 8 points before / at / between event times, at the end, beyond it} "
         "on one small replication with a tie, a zero-delay child and an event exactly at the end; plus "
         "generated programs x random segmentations of the replication into run_up_to / run_up_to_including / step pieces "
-        "(cuts before, at and between event times, at the end, beyond the end, in the past) and stop()-from-a-handler followed "
-        "by start; each also run uninterrupted; non-trivial = distinct case executing >= 3 events with a bounded cut before the "
+        "(cuts before, at and between event times, at the end, beyond the end, in the past) and pauses - stop() called by a handler, "
+        "or by the controlling thread while a handler runs (rendezvous) - followed by start; each also run uninterrupted; non-trivial = distinct case executing >= 3 events with a bounded cut before the "
         "end, a step, or a stop/start pause")
 
 
